@@ -73,7 +73,8 @@ func init() {
 				{Kind: "mapfull", TotalRows: rowsChoice(r), Relay: "reenc", NoUndo: true},
 				{Kind: "stump", Relay: "reenc", NoUndo: true},
 				{Kind: "mappartial", TotalRows: -1, Relay: "reenc", NoUndo: true, DetMaps: r.Bool()},
-				{Kind: "mappartial", TotalRows: []int{0, 0, 1 + r.Intn(8)}[r.Intn(3)], Relay: "reenc", NoUndo: true}}
+				{Kind: "mappartial", TotalRows: []int{0, 0, 1 + r.Intn(8)}[r.Intn(3)], Relay: "reenc", NoUndo: true},
+				{Kind: "mappartial", TotalRows: -1, Relay: "reenc", NoUndo: true, FromRoots: 1 + r.Intn(4)}}
 		},
 		MaxBlocks: 30, MaxAdds: 48, PReorg: 3, PCacheOps: 10, NetFaults: true})
 	reg(&Profile{Name: "c06", PForged: 10, Property: "C06", Oracles: []string{"roots", "lookup", "prove", "provable-set", "partial"},
@@ -261,6 +262,7 @@ func Generate(p *Profile, seed uint64) *Scenario {
 		return out
 	}
 	partials := nodesOf(func(n NodeCfg) bool { return n.Kind == "mappartial" })
+	mapfulls := nodesOf(func(n NodeCfg) bool { return n.Kind == "mapfull" && n.Relay != "rebatch" })
 	forests := nodesOf(func(n NodeCfg) bool { return n.Kind != "stump" && n.Kind != "light" && n.Relay == "" })
 	anyNodes := nodesOf(func(n NodeCfg) bool { return true })
 	lights := nodesOf(func(n NodeCfg) bool { return n.Kind == "light" })
@@ -325,6 +327,10 @@ func Generate(p *Profile, seed uint64) *Scenario {
 				picks[i] = g.Intn(1 << 12)
 			}
 			if g.Pct(45) {
+				if len(mapfulls) > 0 && g.Pct(20) {
+					// a full forest must treat Prune as a no-op
+					node = mapfulls[g.Intn(len(mapfulls))]
+				}
 				sc.Steps = append(sc.Steps, Step{Op: "prune", Node: node, Picks: picks, Arg: g.Intn(3) / 2})
 			} else {
 				sc.Steps = append(sc.Steps, Step{Op: "ingest", Node: node, Picks: picks, Arg: g.Intn(3)})
